@@ -689,6 +689,9 @@ Proof.
   - unfold get. rewrite Hheap. exact Hh.
 Qed.
 
+Lemma deps_ok_drop_sb root s : get root s <> None -> deps_ok root s -> deps_ok root (drop_sb s).
+Proof. intros Hr HD. apply (deps_ok_step root s); [exact Hr|exact HD|apply deps_step_view; apply heap_drop_sb]. Qed.
+
 Section C04.
   Variable P : params.
   Hypothesis HP : pointwise P.
@@ -747,7 +750,8 @@ Section C04.
     intros (HFL & HD & _). pose proof (fl_MWaitHead P root res spec fr s HFL) as HFL'.
     destruct HFL as ((Hr & Hf & HS & Ht & _) & HF & HK). cbn in Hf, HS, Ht, HF, HK. subst fr.
     cbn [step c_mode c_frames c_st] in *. destruct (computed root s) eqn:Hc.
-    - exists S. split; [|intros E; discriminate]. split; [exact HFL'|]. cbn. auto.
+    - exists S. split; [|intros E; discriminate]. split; [exact HFL'|]. cbn.
+      split; [apply deps_ok_drop_sb; [destruct Ht as (o & tk & Hg); rewrite Hg; discriminate|exact HD]|exact I].
     - exists (fun _ => False). split; [|intros _ d []]. split; [exact HFL'|]. cbn. split.
       + apply (deps_ok_step root s); [destruct Ht as (o & tk & Hg); rewrite Hg; discriminate|exact HD|apply deps_step_view; reflexivity].
       + destruct Ht as (o & tk & Hg).
@@ -779,8 +783,9 @@ Section C04.
   Proof.
     intros (HFL & HD & _). split; [apply fl_MAfterExec; auto|].
     destruct HFL as ((Hr & Hf & HS & Ht & _) & _). cbn in Hf, HS, Ht. subst fr. cbn [step c_mode c_frames c_st].
-    destruct (computed root s); [cbn; auto|]. cbn. split; [|exact I].
-    apply (deps_ok_step root s); [destruct Ht as (o & tk & Hg); rewrite Hg; discriminate|exact HD|apply (deps_step_cwb spec); exact HS].
+    assert (Hroot : get root s <> None) by (destruct Ht as (o & tk & Hg); rewrite Hg; discriminate).
+    destruct (computed root s); [cbn; split; [apply deps_ok_drop_sb; assumption|exact I]|]. cbn. split; [|exact I].
+    apply (deps_ok_step root s); [exact Hroot|exact HD|apply (deps_step_cwb spec); exact HS].
   Qed.
 
   Lemma dl_MExecLoop spec S fr s : DL spec S (mkC MExecLoop fr s) ->
